@@ -64,6 +64,7 @@ pub const MUTATORS: &[&str] = &[
     "external-entity-in-attr",
     "unparsed-entity-ref",
     "redeclared-entity",
+    "pe-in-entity-value",
 ];
 
 /// apply mutator `which` (index into MUTATORS); returns (mutant, mutator actually applied)
@@ -480,6 +481,29 @@ fn apply(text: &str, name: &str, g: &mut Genes) -> Option<String> {
                 let te = t[rs2..].find(|c: char| c == '>' || c == '/' || c.is_whitespace())? + rs2;
                 Some(format!("{} zz=\"&ext;\"{}", &t[..te], &t[te..]))
             }
+        }
+        "pe-in-entity-value" => {
+            // WFC PEs in Internal Subset: no parameter-entity reference inside a markup declaration, whether or not
+            // the general entity that holds it is ever used, and whether or not the parameter entity exists
+            let (rs, _) = root_span(text)?;
+            let decl = ["<!ENTITY pev \"%p;\">", "<!ENTITY pev 'a%p;b'>", "<!ENTITY pev \"%\">", "<!ENTITY pev \"50% off\">"][g.pick(4)];
+            let t = if text.contains("<!DOCTYPE") {
+                let i = text.find('[')? + 1;
+                format!("{}{}{}", &text[..i], decl, &text[i..])
+            } else {
+                format!("{}<!DOCTYPE a [{}]>{}", &text[..rs], decl, &text[rs..])
+            };
+            if g.chance(1, 2) {
+                return Some(t);
+            }
+            // referenced as well
+            let (rs2, re2) = root_span(&t)?;
+            let cands: Vec<usize> = occurrences(&t[rs2..re2], ">").into_iter().map(|i| rs2 + i + 1).filter(|&i| i < re2).collect();
+            if cands.is_empty() {
+                return Some(t);
+            }
+            let k = cands[g.pick(cands.len())];
+            Some(format!("{}&pev;{}", &t[..k], &t[k..]))
         }
         "redeclared-entity" => {
             // 4.2: the first declaration of an entity is binding. One of the entity-borne violations, after which
